@@ -56,7 +56,7 @@ def c_iter(c):
     c.post("yields_existing_nodes", lambda r: ForAll([k], Implies(And(k >= 0, k < out.n), And(P.alloc0(node(k)), node(k) != NULL, archmodel.is_concrete(P, node(k)))), patterns=[node(k)]))
 
 
-@P.external("find", "ArchNode.find(name): the existing node with that name (raises ValueError if there is none)")
+@P.external("find", "ArchNode.find(name): the existing node with that name (raises ValueError if there is none)", modifies=[])
 def c_find(c):
     c.arg("self", OBJ("Arch"))
     nm = c.arg("name", ELEM)
@@ -64,7 +64,7 @@ def c_find(c):
     c.post("an_existing_node_with_that_name", lambda r: And(P.alloc0(r.ref), r.ref != NULL, archmodel.is_concrete(P, r.ref), Select(c.ex.heap_arrays("name")[0], r.ref) == nm))
 
 
-@P.external("get_fanout", "Spatialable.get_fanout(): pure")
+@P.external("get_fanout", "Spatialable.get_fanout(): pure", modifies=[])
 def c_fanout(c):
     s = c.arg("self", OBJ())
     c.result_is(FAN(s.ref))
